@@ -33,6 +33,13 @@ func main() {
 	stages := []dbreplay.Stage{
 		{Name: "crash-rb-3pg-3ops", Cfg: "MC_DBFile_crash_rb.cfg", Timeout: 10 * time.Minute, MaxKeep: core.Pick(args, 250, 2500), LastIs: "Crash"},
 		{Name: "crash-wal-2pg-4ops", Cfg: "MC_DBFile_crash_wal.cfg", Timeout: 15 * time.Minute, MaxKeep: core.Pick(args, 350, 3500), LastIs: "Crash"},
+		// every behaviour in which the interrupted WAL commit is not the first transaction of the log (the
+		// restart has to cut the log back to the end of the newest captured transaction: WALOffset+WALSize)
+		{Name: "crash-in-a-later-wal-commit", Cfg: "MC_DBFile_crash_wal.cfg", Timeout: 15 * time.Minute, MaxKeep: core.Pick(args, 120, 0), LastIs: "Crash", Needs: []string{"WEnd*2"}},
+		// ... and the one in which it is the third: the newest captured transaction then starts behind the log's
+		// first one (edge-complete emission: crash states coincide, so one behaviour per distinct state is too few)
+		{Name: "crash-in-the-third-wal-commit", Cfg: "MC_DBFile_crash_wal3.cfg", Timeout: 15 * time.Minute, MaxKeep: core.Pick(args, 150, 0), LastIs: "Crash", Needs: []string{"WEnd*2", "BeginW*3"},
+			Has: []string{`"at":"w_frames"`}, Not: []string{`"a":"Ckpt"`, `"a":"LCkpt"`, `"out":"rollback"`}},
 	}
 	if os.Getenv("C05_STAGES") == "applycrash" { // development aid: only the stage of ApplyCrash.tla
 		stages = nil
